@@ -31,6 +31,15 @@ META = {
 POS = (Fraction(1, 10 ** 9), None)
 ZR = (-4, 4)
 EL = "from chempy.electrolytes import *\nfrom chempy import electrolytes as E\nimport numpy as np\n"
+# a physically plausible point for the witness search (generic rational points make exp(-A ...) underflow on both sides)
+PHYS = {"c1": "1/10", "c2": "1/5", "a1": "1/2000000000", "a2": "3/10000000000", "T": "298", "eps": "78", "rho": "997", "T2": "363", "eps2": "58",
+        "rho2": "965", "Cv": "1/10"}
+SEQ = ("import warnings\n"
+       "def _seq(cls, a1, a2, cs):\n"
+       "    o1, o2 = cls(*a1), cls(*a2)\n"
+       "    with warnings.catch_warnings():\n"
+       "        warnings.simplefilter('ignore')\n"
+       "        return tuple(o(c) for c in cs for o in (o1, o2))\n")
 
 CASES = [
     dict(name="ionic_strength_list", targets=["chempy.electrolytes.ionic_strength"], setup=EL,
@@ -97,6 +106,19 @@ CASES = [
          plain="extended_activity_product(I, (n_nu1, n_nu2, 1), (n_z1, n_z1, n_z2), (a1, a2, a2), T, eps, rho, Cv, backend=be)",
          formula="be.exp(n_nu1*extended_log_gamma(I, n_z1, a1, A(eps, T, rho), B(eps, T, rho), Cv) + n_nu2*extended_log_gamma(I, n_z1, a2, A(eps, T, rho), B(eps, T, rho), Cv)"
                  " + extended_log_gamma(I, n_z2, a2, A(eps, T, rho), B(eps, T, rho), Cv))"),
+    # the callable objects evaluate the same products from molalities; two objects with different conditions, called alternately
+    # (history: nothing evaluated for one object or one composition may leak into the next evaluation)
+    dict(name="limiting_product_objects", targets=["chempy.electrolytes.LimitingDebyeHuckelActivityProduct.__call__"], setup=EL + SEQ,
+         vars={"c1": POS, "c2": POS, "T": POS, "eps": POS, "rho": POS, "T2": POS, "eps2": POS, "rho2": POS},
+         plain="_seq(LimitingDebyeHuckelActivityProduct, ((1, 2), (2, -1), T, eps, rho), ((1, 2), (2, -1), T2, eps2, rho2), ([c1, c2], [c2, c1]))",
+         formula="tuple(limiting_activity_product(ionic_strength(c, (2, -1), warn=False), (1, 2), (2, -1), *p, backend=be) "
+                 "for c in ([c1, c2], [c2, c1]) for p in ((T, eps, rho), (T2, eps2, rho2)))", hints=[PHYS]),
+    dict(name="extended_product_objects", targets=["chempy.electrolytes.ExtendedDebyeHuckelActivityProduct.__call__"], setup=EL + SEQ,
+         vars={"c1": POS, "c2": POS, "a1": POS, "a2": POS, "T": POS, "eps": POS, "rho": POS, "T2": POS, "eps2": POS, "rho2": POS, "Cv": (None, None)},
+         plain="_seq(ExtendedDebyeHuckelActivityProduct, ((1, 2), (2, -1), (a1, a2), T, eps, rho, Cv), "
+               "((1, 2), (2, -1), (a1, a2), T2, eps2, rho2), ([c1, c2], [c2, c1]))",
+         formula="tuple(extended_activity_product(ionic_strength(c, (2, -1), warn=False), (1, 2), (2, -1), (a1, a2), *p, backend=be) "
+                 "for c in ([c1, c2], [c2, c1]) for p in ((T, eps, rho, Cv), (T2, eps2, rho2)))", hints=[PHYS]),
     dict(name="davies_activity_product", targets=["chempy.electrolytes.davies_activity_product"], setup=EL,
          vars={"I": POS, "n_z1": ZR, "n_z2": ZR, "n_nu1": (-3, 3), "n_nu2": (-3, 3), "T": POS, "eps": POS, "rho": POS, "Cv": (None, None)},
          plain="davies_activity_product(I, (n_nu1, n_nu2), (n_z1, n_z2), (1, 1), T, eps, rho, Cv, backend=be)",
